@@ -200,4 +200,83 @@ def camFlow (urlText : Str) (cb : Option (List Str)) (sessCtl : Option Str) (con
       if t.failed.isSome then t else
       (t.line "PLAY" (requestTarget (some base))).line "TEARDOWN" (requestTarget (some base))
 
+/-! ### redirects and the automatic switch to TCP (client.go: doDescribeRedirect, doSetup, trySwitchingProtocol)
+
+The client remembers the URL of the DESCRIBE that was finally answered (`lastDescribeURL`, the redirect
+TARGET) and, when it falls back to TCP — the server answers a UDP SETUP with a TCP transport, or no UDP
+packet arrives within InitialUDPReadTimeout — it tears the session down, re-connects, re-DESCRIBEs that
+remembered URL and repeats the SETUPs with the base URL it had and PLAY. -/
+
+/-- `strings.ReplaceAll(tmpl, "{T}", target)` (how the scripted server fills its Content-Base templates) -/
+def substTarget (target : Str) : Str → Str
+  | [] => []
+  | [c] => [c]
+  | [c, d] => [c, d]
+  | c :: a :: b :: rest =>
+    if c = 123 && a = 84 && b = 125 then target ++ substTarget target rest
+    else c :: substTarget target (a :: b :: rest)
+
+inductive Switch | none | setupTCP | udpTimeout
+deriving DecidableEq, Repr
+
+/-- `clientMaxRedirects` -/
+def maxRedirects : Nat := 10
+
+/-- `doDescribeRedirect`: OPTIONS + DESCRIBE of `u`; `locs` are the `Location` values the servers answer to the
+successive DESCRIBEs (empty = answered 200).  `cs` = `c.Scheme`.  Result: the URL that was answered. -/
+def describeChain : List Str → Nat → Str → Url → Trace → Trace × Option Url
+  | locs, redirects, cs, u, t =>
+    let target := requestTarget (some u)
+    let t := (t.line "OPTIONS" target).line "DESCRIBE" target
+    match locs with
+    | [] => (t, some u)
+    | l :: rest =>
+      if redirects ≥ maxRedirects then (t.fail "describe", none)
+      else match parse l with
+        | none => (t.fail "describe", none)
+        | some ru =>
+          if cs == schemeRTSPS && ru.scheme != schemeRTSPS then (t.fail "describe", none)
+          else
+            let ru := if u.user.isSome then { ru with user := u.user } else ru
+            describeChain rest (redirects + 1) ru.scheme ru t
+
+/-- Client (automatic protocol unless `sw = none`) against scripted servers: DESCRIBE with redirects, SETUP of
+every media, PLAY, the automatic switch to TCP, optionally one keep-alive, Close. -/
+def switchFlow (urlText : Str) (locs : List Str) (cb : Option (List Str)) (sessCtl : Option Str)
+    (controls : List Str) (sw : Switch) (keepAlive : Bool) : Trace :=
+  match parse urlText with
+  | none => ({} : Trace).fail "parse"
+  | some u0 =>
+    match describeChain locs 0 u0.scheme u0 {} with
+    | (t, none) => t
+    | (t, some u) =>
+      let target := requestTarget (some u)
+      let cbv := cb.map fun vs => vs.map (substTarget target)
+      match findBaseURL sessCtl cbv u with
+      | none => t.fail "describe"
+      | some base =>
+        let bt := requestTarget (some base)
+        let redescribe := fun (t : Trace) => ((t.line "TEARDOWN" bt).line "OPTIONS" target).line "DESCRIBE" target
+        let finish := fun (t : Trace) =>
+          if t.failed.isSome then t else
+          let t := t.line "PLAY" bt
+          let t := if keepAlive then t.line "OPTIONS" bt else t
+          t.line "TEARDOWN" bt
+        match sw with
+        | .none => finish (camSetups base controls t)
+        | .setupTCP =>
+          match controls with
+          | [] => finish t
+          | c :: _ =>
+            match mediaURL c (some base) with
+            | .err => t.fail "setup"
+            | .url mu =>
+              let t := t.line "SETUP" (requestTarget (some mu))
+              finish (camSetups base controls (redescribe t))
+        | .udpTimeout =>
+          let t := camSetups base controls t
+          if t.failed.isSome then t else
+          let t := t.line "PLAY" bt
+          finish (camSetups base controls (redescribe t))
+
 end Rtsp.Url
